@@ -278,6 +278,16 @@ theorem gen_has_steps :
     Step.create ∈ genMain ∧ Step.write ∈ genMain ∧ Step.fsyncFile ∈ genMain ∧ Step.rename ∈ genMain ∧
     Step.fsyncDir ∈ genMain ∧ Step.unlinkTmp ∈ genCleanup := by decide
 
+/-- **Closed world.** Every call in the regenerated body of `Local.Save` is either one of the
+    modelled file system steps or a call known not to touch the file system. A new helper, an
+    `os.OpenFile` / `os.WriteFile` / `os.Create` of the final name, an early-return fast path
+    through some other function … is an unknown call and breaks this theorem: the final name may
+    only be produced by `os.Rename` of a file made by `tempFile`. -/
+theorem gen_calls_known : allCallsKnown Restic.Gen.localSave_calls = true := by decide
+
+/-- ... and both `tempFile` calls lie before the rename, there is exactly one rename -/
+theorem gen_single_rename : (Restic.Gen.localSave_calls.filter (· == "os.Rename")).length = 1 := by decide
+
 /-- proof obligation 1 on the regenerated order: **data fsynced before rename** (for every
     execution including failures and the deferred cleanup) -/
 theorem gen_allExecsSafe : allExecsSafe genMain genCleanup = true := by decide
